@@ -29,7 +29,7 @@ TREE_PRELUDE = 'From V Require Import Base.PyInt Model.ClockTree Spec.C10Tree.\n
 # ------------------------------------------------------------------------------------------------ lookup tie
 def obj_term(o, didx):
     """Coq term of Model.ClockTree.obj for a live object (its clockDriver field and its parent chain)"""
-    d = getattr(o, 'clockDriver', None)
+    d = o.__dict__.get('_vf_driver')          # the CONFIGURED driver (harness record), not whatever sits in o.clockDriver now
     ds = '(@None nat)' if d is None else '(Some %d%%nat)' % didx[id(d)]
     if o.parent is None:
         return '(@Top nat %s)' % ds
@@ -37,7 +37,7 @@ def obj_term(o, didx):
 
 
 def htree_term(o, didx):
-    d = getattr(o, 'clockDriver', None)
+    d = o.__dict__.get('_vf_driver')
     ds = '(@None nat)' if d is None else '(Some %d%%nat)' % didx[id(d)]
     ch = list(o.children.values())
     return '(HNode %s %s [%s])' % (ds, 'true' if (not ch and o.isClockable()) else 'false', '; '.join(htree_term(c, didx) for c in ch))
@@ -56,8 +56,8 @@ def lookup_tie(ctx, n_trees, only=None):
         mode = rng.choice(['hw', 'hw', 'hw', 'hw_nodrv', 'bare'])
         root, objs, drivers = H.random_tree(rng, with_top_driver=None if mode == 'bare' else True)
         if mode == 'hw_nodrv':
-            drivers = [d for d in drivers if d is not root.clockDriver]
-            root.clockDriver = None
+            drivers = [d for d in drivers if d is not root._vf_driver]
+            D.assign(root, None)
         didx = {id(d): i for i, d in enumerate(drivers)}
         real, ref = [], []
         for o in objs:
@@ -95,19 +95,20 @@ def lookup_tie(ctx, n_trees, only=None):
                                                              htree_term(root, didx))))
         meta.append(dict(tree=t, mode=mode, n_objects=len(objs), n_drivers=len(drivers), real=real, ref=ref, buckets=buckets, ref_buckets=ref_buckets,
                          paths=[o.getFullPath() for o in objs],
-                         fields=[None if getattr(o, 'clockDriver', None) is None else didx[id(o.clockDriver)] for o in objs]))
+                         fields=[None if o.__dict__.get('_vf_driver') is None else didx[id(o._vf_driver)] for o in objs],
+                         names=[getattr(d, 'name', None) for d in drivers]))
     probs = []
     for m in meta:
         if m['real'] != m['ref']:
             k = next(i for i, (a, b) in enumerate(zip(m['real'], m['ref'])) if a != b)
             probs.append(dict(kind='impl', what='getObjectClockDriver does not return the nearest ancestor\'s driver', tree_seed=ctx.seed * 7727 + m['tree'],
-                              object=m['paths'][k], returned=m['real'][k], nearest=m['ref'][k], clockDriver_fields=dict(zip(m['paths'], m['fields']))))
+                              object=m['paths'][k], returned=m['real'][k], nearest=m['ref'][k], configured_drivers=dict(zip(m['paths'], m['fields'])), driver_names=m['names']))
         if m['buckets'] != 'n/a':
             norm = lambda b: b if b is None or isinstance(b, str) else [(a, list(x)) for a, x in b]
             if norm(m['buckets']) != norm(m['ref_buckets']):
                 probs.append(dict(kind='impl', what='Simulator.clockDrivers does not put every clockable leaf once under its nearest ancestor\'s driver',
                                   tree_seed=ctx.seed * 7727 + m['tree'], mode=m['mode'], simulator_table=norm(m['buckets']), expected=norm(m['ref_buckets']),
-                                  clockDriver_fields=dict(zip(m['paths'], m['fields']))))
+                                  configured_drivers=dict(zip(m['paths'], m['fields'])), driver_names=m['names']))
     try:
         res = common.coq_eval('C10_tree', TREE_PRELUDE, items, timeout=600)
     except RuntimeError as ex:
@@ -132,20 +133,35 @@ def lookup_tie(ctx, n_trees, only=None):
 
 
 # ------------------------------------------------------------------------------------------------ gating oracle
-def snapshot(hw, sim):
+def clocked_leaves(hw):
+    return [l for l in hw.allLeaves() if callable(getattr(l, 'clock', None))]
+
+
+def snapshot(hw, sim=None):
     wires = netlist.all_wires(hw)
     vals = {w.getFullPath(): w.get() for w in wires}
-    sts = {D.clockable_key(l): D.leaf_state(l) for cds in sim.clockDrivers.values() for l in cds.clockables}
+    sts = {D.clockable_key(l): D.leaf_state(l) for l in clocked_leaves(hw)}
     return vals, sts
 
 
-def domain_table(sim):
-    """driver name -> (enabled before the edge?, leaf paths, out-port wire paths)"""
-    t = {}
-    for drv, cds in sim.clockDrivers.items():
-        en = drv.enable is None or drv.enable.get() != 0
-        t[drv.name] = (en, [D.clockable_key(l) for l in cds.clockables],
-                       [p.wire.getFullPath() for l in cds.clockables for p in l.outPorts if p.wire is not None])
+def domains_of(hw):
+    """the clock domains as CONFIGURED (harness record of the driver assignments, nearest ancestor), independent of
+    Simulator.clockDrivers, of obj.clockDriver and of driver names: [(driver object, [leaves])] in allLeaves order"""
+    order, groups = [], {}
+    for l in clocked_leaves(hw):
+        d = D.nearest_driver(l)
+        if id(d) not in groups: groups[id(d)] = (d, []); order.append(id(d))
+        groups[id(d)][1].append(l)
+    return [groups[k] for k in order]
+
+
+def domain_table(hw):
+    """[(label, driver, enabled before the edge?, leaf paths, out-port wire paths)]"""
+    t = []
+    for k, (drv, leaves) in enumerate(domains_of(hw)):
+        en = drv is None or drv.enable is None or drv.enable.get() != 0
+        t.append(('%s#%d' % (getattr(drv, 'name', None), k), drv, en, [D.clockable_key(l) for l in leaves],
+                  [p.wire.getFullPath() for l in leaves for p in l.outPorts if p.wire is not None]))
     return t
 
 
@@ -171,38 +187,38 @@ def gating_oracle(family, seed, domains, n_steps, steps=None):
     if steps is None:
         steps = D.stimulus(b, rng, n_steps, max_clk=1)
     inst = D.Instance(b)
-    stats = {'edges': 0, 'gated_edges': 0, 'enabled_gated_domains': 0, 'domains': len(inst.sim.clockDrivers)}
+    stats = {'edges': 0, 'gated_edges': 0, 'enabled_gated_domains': 0, 'domains': len(domains_of(b.hw))}
     for k, (pokes, n) in enumerate(steps):
         inst.poke(pokes)
         for c in range(n):
             with quiet():
                 inst.sim.propagateAll()                       # clk() does this first; make the enables current
-            pre_v, pre_s = snapshot(b.hw, inst.sim)
-            tab = domain_table(inst.sim)
-            names = list(tab)
-            # twin A: every driver whose enable reads non-zero is UNGATED
+            pre_v, pre_s = snapshot(b.hw)
+            tab = domain_table(b.hw)
+            # twin A: every configured driver whose enable reads non-zero is UNGATED
             ta, tb = twin(b.hw), twin(b.hw)
-            for drv in list(ta.simulator.clockDrivers):
-                if drv.enable is not None and drv.enable.get() != 0: drv.enable = None
+            for drv, _ in domains_of(ta):
+                if drv is not None and drv.enable is not None and drv.enable.get() != 0: drv.enable = None
             # twin B: every OTHER domain's gating is flipped; target domain unchanged
-            target = names[(k + c) % len(names)]
+            ti = (k + c) % len(tab)
             with quiet():
                 zero = tb.wire('c10_force0', 1)
-            for drv in list(tb.simulator.clockDrivers):
-                if drv.name == target: continue
+            for j, (drv, _) in enumerate(domains_of(tb)):
+                if j == ti or drv is None: continue
                 en = drv.enable is None or drv.enable.get() != 0
                 drv.enable = zero if en else None
             pr = inst.clk(1)
             with quiet():
                 ta.simulator.clk(1); tb.simulator.clk(1)
-            post_v, post_s = snapshot(b.hw, inst.sim)
-            av, as_ = snapshot(ta, ta.simulator)
-            bv, bs = snapshot(tb, tb.simulator)
+            post_v, post_s = snapshot(b.hw)
+            av, as_ = snapshot(ta)
+            bv, bs = snapshot(tb)
             stats['edges'] += 1
             def fail(what, **kw):
-                return dict(what=what, step=k, cycle_in_step=c, pokes=pokes, enables_before_edge={m: tab[m][0] for m in tab}, **kw), steps, stats
+                return dict(what=what, step=k, cycle_in_step=c, pokes=pokes, enables_before_edge={m[0]: m[2] for m in tab},
+                            domains={m[0]: m[3] for m in tab}, **kw), steps, stats
             if pr: return fail('bookkeeping after clk(1): ' + '; '.join(pr))
-            for name, (en, leaves, outs) in tab.items():
+            for name, drv, en, leaves, outs in tab:
                 if not en:
                     stats['gated_edges'] += 1
                     for l in leaves:
@@ -213,7 +229,7 @@ def gating_oracle(family, seed, domains, n_steps, steps=None):
                         if post_v[w] != pre_v[w]:
                             return fail('an output of a gated domain changed although its enable read 0 before the edge',
                                         domain=name, wire=w, before=pre_v[w], after=post_v[w])
-                elif name in [d.name for d in inst.sim.clockDrivers if d.enable is not None]:
+                elif drv is not None and drv.enable is not None:
                     stats['enabled_gated_domains'] += 1
             for w in post_v:
                 if av.get(w) != post_v[w]:
@@ -221,14 +237,14 @@ def gating_oracle(family, seed, domains, n_steps, steps=None):
             for l in post_s:
                 if as_.get(l) != post_s[l]:
                     return fail('with the enabled drivers replaced by ungated ones the edge gives a different leaf state', leaf=l, gated=post_s[l], ungated=as_.get(l))
-            en, leaves, outs = tab[target]
+            name, drv, en, leaves, outs = tab[ti]
             for l in leaves:
                 if bs.get(l) != post_s[l]:
-                    return fail('the post-edge state of a domain depends on the gating of the OTHER domains', domain=target, leaf=l,
+                    return fail('the post-edge state of a domain depends on the gating of the OTHER domains', domain=name, leaf=l,
                                 here=post_s[l], others_flipped=bs.get(l))
             for w in outs:
                 if bv.get(w) != post_v[w]:
-                    return fail('an output of a domain depends on the gating of the OTHER domains', domain=target, wire=w,
+                    return fail('an output of a domain depends on the gating of the OTHER domains', domain=name, wire=w,
                                 here=post_v[w], others_flipped=bv.get(w))
     return None, steps, stats
 
